@@ -1391,8 +1391,14 @@ func c08BlackholeGen(rt *rapid.T) c08TCase {
 		}
 	}
 	c.Ops = append(c.Ops, c08TOp{K: "outage", M: "blackhole"})
-	// the request that notices: mostly one the full in-process bucket must grant
-	first := rapid.SampledFrom([]int{1, 1, int(model.burst), int(model.burst), rapid.IntRange(1, int(model.burst)).Draw(rt, "n1"), int(model.burst) + 1}).Draw(rt, "first")
+	// the request that notices the hole: ALWAYS one that the full in-process bucket
+	// must grant (1..burst). The quick tier runs one case of this rule; a first
+	// request for more than burst is denied by either bucket and by a limiter that
+	// does not fall back at all, and every later request of such a limiter waits
+	// 12 s again and the case ends up excluded as stalled - the case would be
+	// blind (seeded net-timeout-treated-as-caller-deadline was missed that way
+	// when added draws shifted the seed-1 case onto burst+1).
+	first := rapid.SampledFrom([]int{1, 1, int(model.burst), int(model.burst), rapid.IntRange(1, int(model.burst)).Draw(rt, "n1")}).Draw(rt, "first")
 	allow(true, first)
 	for i := rapid.IntRange(3, 12).Draw(rt, "during"); i > 0; i-- {
 		if rapid.IntRange(0, 3).Draw(rt, "adv") == 0 {
